@@ -146,7 +146,11 @@ def shards(tier, seed):
     for n_cond in (1, 2, 3):
         for tr in (1.0, 2.0):
             for n_vols in (20, 40):
-                out.append({'part': 'design', 'n_cond': n_cond, 'tr': tr, 'n_vols': n_vols})
+                for conf in ('none', 'two', 'three_nan'):
+                    firsts = [[f] for f in range(n_cond + 1)] if thorough else [list(range(n_cond + 1))]
+                    for first in firsts:
+                        out.append({'part': 'design', 'n_cond': n_cond, 'tr': tr, 'n_vols': n_vols,
+                                    'conf': conf, 'first': first})
     for total in range(1, b['spm_max_scans'] + 1):
         for runs in (1, 2, 3):
             if runs <= total:
@@ -185,12 +189,13 @@ def run_shard(shard, ctx):
     elif part == 'design':
         grid = b['design_grid']
         for assign in _design_assignments(len(grid), shard['n_cond']):
-            for conf in ('none', 'two', 'three_nan'):
-                for dur in b['design_dur']:
-                    for rows in (('onset', 'reversed') if ctx.tier == 'thorough' else ('onset',)):
-                        run_case({'part': 'design', 'grid': grid, 'assign': list(assign),
-                                  'tr': shard['tr'], 'n_vols': shard['n_vols'], 'conf': conf,
-                                  'dur': dur, 'rows': rows}, ctx)
+            if assign[0] not in shard['first']:
+                continue
+            for dur in b['design_dur']:
+                for rows in (('onset', 'reversed') if ctx.tier == 'thorough' else ('onset',)):
+                    run_case({'part': 'design', 'grid': grid, 'assign': list(assign),
+                              'tr': shard['tr'], 'n_vols': shard['n_vols'], 'conf': shard['conf'],
+                              'dur': dur, 'rows': rows}, ctx)
     elif part == 'spm':
         for nscans in combi.compositions(shard['total'], shard['runs']):
             for ncols in itertools.product((1, 2), repeat=shard['runs']):
@@ -204,6 +209,15 @@ def run_shard(shard, ctx):
 
 
 def run_case(case, ctx, root=None):
+    part = case['part']
+    before = ctx.evaluations
+    try:
+        _run_case(case, ctx, root)
+    finally:
+        ctx.count('evaluations ' + part, ctx.evaluations - before)
+
+
+def _run_case(case, ctx, root=None):
     part = case['part']
     if part == 'bids':
         with _scratch(root) as d:
@@ -236,8 +250,6 @@ class _NibabelStub:
 
     @staticmethod
     def load(path):
-        if not os.path.isfile(path):
-            raise FileNotFoundError(path)
         return _Image(path)
 
 
@@ -303,17 +315,20 @@ def _bids_case(case, ctx, root):
     sub = dict(case, op='parse')
     ctx.case(sub)
     base = None
+    parsed_ok = True
     with ctx.guard('BidsFile.parse|%s' % klass, sub):
         base = _bids_file(relpath, layout, case['ext'])
         for key in ref.ALL_KEYS:
             got = getattr(base, key, '<no attribute>')
             if got != ent[key]:
+                parsed_ok = False
                 ctx.fail('BidsFile.parse|%s|entity=%s' % (klass, key), sub,
                          'path %s: %s parsed as %r, written %r' % (relpath, key, got, ent[key]))
         if os.path.normpath(str(base.relpath)) != os.path.normpath(relpath):
             ctx.fail('BidsFile.parse|%s|relpath' % klass, sub, '%r vs %r' % (base.relpath, relpath))
         ctx.outcome(('parse', tuple(getattr(base, k, None) is None for k in ref.ALL_KEYS)))
-    if base is None:
+    if base is None or not parsed_ok:
+        ctx.count('bids look-ups skipped because the path was already parsed wrongly')
         return
 
     # ---- look-ups as paths
@@ -321,12 +336,14 @@ def _bids_case(case, ctx, root):
                ('events', 'find_events_for', None, None)]
     lookups += [('table_sibling', 'find_table_sibling_of', d, s) for d, s in TABLE_SIBLINGS]
     lookups += [('mri_sibling', 'find_mri_sibling_of', d, s) for d, s in MRI_SIBLINGS]
+    path_ok = {}
     for lookup, method, desc, suffix in lookups:
         sub = dict(case, op=lookup, desc=desc, sibling_suffix=suffix)
         ctx.case(sub)
         want_ent = ref.with_changes(ent, ref.lookup_changes(lookup, desc, suffix))
         want = ref.bids_relpath(want_ent)
-        sigp = 'BidsLayout.%s%s|%s' % (method, '(identity)' if lookup == 'identity' else '', klass)
+        sigp = 'BidsLayout.%s%s|relpath' % (method, '(identity)' if lookup == 'identity' else '')
+        path_ok[(lookup, desc, suffix)] = False
         with ctx.guard(sigp, sub):
             if lookup == 'identity':
                 found = layout.find_mri_sibling_of(base, desc=base.desc, suffix=base.suffix)
@@ -340,6 +357,7 @@ def _bids_case(case, ctx, root):
                 ctx.fail('%s|%s' % (sigp, _path_diff(want, got)), sub,
                          'base %s: got %s, expected %s' % (relpath, got, want))
                 continue
+            path_ok[(lookup, desc, suffix)] = True
             # the object that comes back must describe the path it carries
             for key in ref.ALL_KEYS:
                 if getattr(found, key, '<no attribute>') != want_ent[key]:
@@ -353,10 +371,13 @@ def _bids_case(case, ctx, root):
     disk += [('mri_sibling', 'BidsMriFile.get_mri_sibling', d, s) for d, s in MRI_SIBLINGS[:1]]
     for lookup, name, desc, suffix in disk:
         sub = dict(case, op='disk:' + lookup, desc=desc, sibling_suffix=suffix)
+        if not path_ok.get((lookup, desc, suffix)):
+            ctx.count('bids disk look-ups skipped because the path look-up already failed')
+            continue
         ctx.case(sub)
         want = ref.bids_relpath(ref.with_changes(ent, ref.lookup_changes(lookup, desc, suffix)))
         wpath = _write_marker(root, want)
-        sigp = '%s|%s,disk' % (name, klass)
+        sigp = '%s|disk' % name
         try:
             with ctx.guard(sigp, sub):
                 if lookup == 'meta':
